@@ -18,6 +18,8 @@ pub struct Doc {
     /// the canonical place and the effective one after [HitObjects]; 3 [TimingPoints] after [HitObjects];
     /// 4 [Events] after [HitObjects] (map-level processing happens after the whole file has been read)
     pub order: u8,
+    /// contains times that are not multiples of 1/8 ms: only the unshifted document is judged
+    pub exact_only: bool,
     pub mode: u8,
     pub sm: &'static str,
     /// (time, rest of the line)
@@ -150,17 +152,30 @@ pub fn gen_doc(t: &mut Tape) -> Doc {
         objs.sort_by(|a, b| a.0.total_cmp(&b.0));
     }
     // many objects on few distinct times (a sorting routine that is only stable for short lists shows here)
+    let mut exact_only = false;
     if t.chance(8) {
         let n = 22 + t.below(50);
         let base = objs.len();
-        let pool = [eighth(t, 0, 80000), eighth(t, 0, 80000), eighth(t, 0, 80000)];
+        let pool: [f64; 3] = match t.below(4) {
+            // distinct times that collide when rounded to f32 (integers above 2^24)
+            0 => {
+                let b = *t.pick(&[16777216.0f64, 33554432.0, 134217728.0, 20000000.0]);
+                [b, b + 1.0, b + 2.0 + t.below(3) as f64]
+            }
+            // distinct times closer than f64::EPSILON to each other (such a document is only judged unshifted)
+            1 => {
+                exact_only = true;
+                [0.0, 1.5e-16, 3e-16]
+            }
+            _ => [eighth(t, 0, 80000), eighth(t, 0, 80000), eighth(t, 0, 80000)],
+        };
         for j in 0..n {
             let time = pool[t.below(3)];
             let x = 8 * (base + j + 1);
             objs.push((time, None, format!("{x},100"), format!("1,{}", t.below(16))));
         }
     }
-    Doc { ver: 14, order: 0, mode, sm, tps, breaks, objs }
+    Doc { ver: 14, order: 0, exact_only, mode, sm, tps, breaks, objs }
 }
 
 fn close(a: f64, b: f64) -> bool {
@@ -389,10 +404,62 @@ pub fn classify_k6(d: &Doc, k: f64) -> bool {
 }
 
 pub fn gen_case(t: &mut Tape) -> (Doc, f64) {
-    let (mut d, k) = gen_case_v14(t);
+    let (mut d, mut k) = gen_case_v14(t);
     d.ver = *t.pick(VERSIONS);
     d.order = *t.pick(&[0u8, 0, 0, 0, 1, 2, 3, 4]);
+    if t.chance(20) && add_exact_boundaries(&mut d, t) {
+        k = 0.0;
+    }
+    if d.exact_only {
+        k = 0.0;
+    }
     (d, k)
+}
+
+/// second pass: inherited lines placed *exactly* (bit-equal, or one ulp beside) where a slider node or end
+/// looks up its sample point - the implementation's own `start + i * duration / spans + 5`. The shift is then 0
+/// (such times are not multiples of 1/8 ms).
+fn add_exact_boundaries(d: &mut Doc, t: &mut Tape) -> bool {
+    let Ok(ho) = rosu_map::from_str::<HitObjects>(&render(d, 0.0)) else { return false };
+    let mut cands: Vec<f64> = vec![];
+    for h in ho.hit_objects {
+        let start = h.start_time;
+        if let HitObjectKind::Slider(mut s) = h.kind {
+            let spans = f64::from(s.span_count());
+            let dur = s.duration();
+            if !dur.is_finite() || dur <= 0.0 {
+                continue;
+            }
+            for i in 0..=s.span_count() {
+                cands.push(start + f64::from(i) * dur / spans + 5.0);
+            }
+            cands.push(start + dur + 5.0);
+        }
+    }
+    if cands.is_empty() {
+        return false;
+    }
+    let n = 1 + t.below(3);
+    for _ in 0..n {
+        let x = cands[t.below(cands.len())];
+        let step = |x: f64, up: bool| -> f64 {
+            if x == 0.0 || !x.is_finite() {
+                return x;
+            }
+            let b = x.to_bits();
+            f64::from_bits(if (x > 0.0) == up { b + 1 } else { b - 1 })
+        };
+        let x = match t.below(4) {
+            0 => step(x, true),
+            1 => step(x, false),
+            _ => x,
+        };
+        if !x.is_finite() {
+            continue;
+        }
+        d.tps.push((x, format!("-100,4,{},{},{},0,{}", 1 + t.below(3), t.pick(&[0, 1, 2]), t.pick(&[100, 60, 30, 45]), t.below(2))));
+    }
+    true
 }
 
 fn gen_case_v14(t: &mut Tape) -> (Doc, f64) {
